@@ -32,7 +32,7 @@ import (
 // C14 — redirect URLs carry the exact message and a signature over exact query octets.
 
 var c14Relay = []string{"", "foobar", "a b", "a+b", "a&b=c", "100%", "%41", "ünï/日本", "a;b", "~._-*", "line1\nline2", strings.Repeat("relay-state-", 170), "SAMLRequest=x&SigAlg=y", "#frag?x", " lead", "trail ", " ", "\t", "café", "日本語", "a.b-c_d~e", "Ünï9"}
-var c14Docs = []string{"authn", "logout", "tiny", "non-ascii", "prolog-and-trailer"}
+var c14Docs = []string{"authn", "logout", "tiny", "non-ascii", "prolog-and-trailer", "authn-with-enveloped-signature"}
 var c14URLs = []string{"https://idp.example.com/sso", "https://idp.example.com/sso?x=1", "https://idp.example.com/sso?x=1&y=a%20b&x=2", "https://idp.example.com/a%20path/sso", "https://idp.example.com/sso?empty=&flag"}
 var c14Funcs = []string{"BuildAuthURL", "BuildAuthURLFromDocument", "BuildAuthURLRedirect", "BuildLogoutURLRedirect", "AuthRedirect"}
 var c14Algs = []string{"", dsig.RSASHA1SignatureMethod, dsig.RSASHA512SignatureMethod, dsig.ECDSASHA256SignatureMethod}
@@ -151,6 +151,13 @@ func c14Doc(sp *saml2.SAMLServiceProvider, which string) (*etree.Document, error
 		return sp.BuildAuthRequestDocumentNoSig()
 	case "logout":
 		return sp.BuildLogoutRequestDocumentNoSig("alice@example.com", "_session-1")
+	case "authn-with-enveloped-signature":
+		// a document that already carries an enveloped signature (made for the POST binding, say)
+		// (built by another provider, one that can sign: the provider under test only has to carry it)
+		other := world.SP()
+		other.IdentityProviderSSOURL, other.IdentityProviderSLOURL = sp.IdentityProviderSSOURL, sp.IdentityProviderSLOURL
+		other.SignAuthnRequests = true
+		return other.BuildAuthRequestDocument()
 	case "tiny":
 		d := etree.NewDocument()
 		d.CreateElement("a")
@@ -239,6 +246,12 @@ func c14ExecOn(sp *saml2.SAMLServiceProvider, signer string, c c14Case) (keys []
 				doc.Root().CreateElement("pad").SetText(c14PadText(c.Pad))
 			}
 			docBytes, _ = doc.WriteToString()
+			defer func() {
+				// the caller's document is an input: it is still what it was
+				if after, _ := doc.WriteToString(); err == nil && after != docBytes {
+					err = fmt.Errorf("HARNESS-OBSERVED: the builder changed the document it was given (%d bytes before, %d after)", len(docBytes), len(after))
+				}
+			}()
 			switch fn {
 			case "BuildAuthURLFromDocument":
 				out, err = sp.BuildAuthURLFromDocument(relay, doc)
@@ -257,6 +270,9 @@ func c14ExecOn(sp *saml2.SAMLServiceProvider, signer string, c c14Case) (keys []
 	if err != nil && c14Failing(c) && (c.Sign || fn == "BuildLogoutURLRedirect") {
 		// a signature is due and the key cannot sign: an error is the right answer
 		return nil, detail, "error-as-due/signing-key-cannot-sign"
+	}
+	if err != nil && strings.HasPrefix(err.Error(), "HARNESS-OBSERVED") {
+		return []string{kp + "input-document-modified"}, detail, "DIFFERS"
 	}
 	if err != nil {
 		return []string{kp + "error"}, detail, "ERROR"
@@ -430,7 +446,7 @@ func c14Replay(raw json.RawMessage) ([]string, string) {
 }
 
 func c14Run(r *mc.Run) {
-	r.Rule = "full product relay state(22) x document(5, incl. one with a declaration, comments and a processing instruction around the root) x IdP URL(5: no query, one parameter, repeated and escaped parameters, escaped path, empty-valued and valueless parameters) x function(5) x SignAuthnRequests(2) x algorithm(4: unset, rsa-sha1, rsa-sha512, ecdsa-sha256) x key configuration(6, incl. a signing key in the field next to an encryption key given through the setter, a P-256 signing key with every algorithm setting), plus relay states assembled from every sequence of 2 (quick) / 2-3 (thorough) of 23 query-syntax fragments through the two signing redirect builders; oracle = hand-split raw query (no net/url), strict percent-decoding, base64 + raw inflate, PKCS#1 v1.5 / ECDSA verification with the reported certificate over SAMLRequest=..[&RelayState=..]&SigAlg=.. assembled from the raw values as they appear; each case is followed on the same instance by a second URL (other relay state, document and IdP endpoint) and, for RSA signers, by a third one after the signing key was replaced through SetSPSigningKeyStore. non-trivial = a URL was produced and decoded; distinct = distinct case"
+	r.Rule = "full product relay state(22) x document(6, incl. one that already carries an enveloped signature; the document must be unchanged afterwards; one with a declaration, comments and a processing instruction around the root) x IdP URL(5: no query, one parameter, repeated and escaped parameters, escaped path, empty-valued and valueless parameters) x function(5) x SignAuthnRequests(2) x algorithm(4: unset, rsa-sha1, rsa-sha512, ecdsa-sha256) x key configuration(6, incl. a signing key in the field next to an encryption key given through the setter, a P-256 signing key with every algorithm setting), plus relay states assembled from every sequence of 2 (quick) / 2-3 (thorough) of 23 query-syntax fragments through the two signing redirect builders; oracle = hand-split raw query (no net/url), strict percent-decoding, base64 + raw inflate, PKCS#1 v1.5 / ECDSA verification with the reported certificate over SAMLRequest=..[&RelayState=..]&SigAlg=.. assembled from the raw values as they appear; each case is followed on the same instance by a second URL (other relay state, document and IdP endpoint) and, for RSA signers, by a third one after the signing key was replaced through SetSPSigningKeyStore. non-trivial = a URL was produced and decoded; distinct = distinct case"
 	var cases []c14Case
 	mc.Enumerate(-1, r.Expired, func(ch *mc.Chooser) {
 		c := c14Case{}
